@@ -151,6 +151,36 @@ pub fn run_child(ctx: &mut Ctx) {
         ctx.case(fnv(ops.join(";").as_bytes()), ops.len() >= 4);
         let _ = std::fs::remove_dir_all(&dir); let _ = std::fs::remove_dir_all(&side);
     }
+    // ---- a shard cache directory shared with another process (C11): a manager obtained again for the same directory sees the
+    // shards that appeared there in the meantime (a later session of this process finds what another process uploaded)
+    for round in 0..(if maxidx < (1 << 20) { 0 } else if ctx.quick() { 4 } else { 30 }) {   // (index cap out of play)
+        let mut rng = ctx.rng.fork(95_000 + round);
+        let dir = tmp_root.join(format!("shared{round}"));
+        let side = tmp_root.join(format!("shared-side{round}"));
+        std::fs::create_dir_all(&dir).unwrap(); std::fs::create_dir_all(&side).unwrap();
+        let m1 = rt.block_on(ShardFileManager::new_in_cache_directory(&dir)).unwrap();
+        let mut expected: Vec<MerkleHash> = Vec::new();
+        let mut all_prefixes: BTreeMap<u64, usize> = BTreeMap::new();   // truncated hash -> number of chunk-table rows in the directory
+        for step in 0..rng.range(1, 3) {
+            let n1 = rng.range(1, 5) as usize;
+            let g = gen_content(&mut rng, n1, 0, 0, false);
+            let mut mem = MDBInMemoryShard::default(); for c in &g.cas { mem.add_cas_block(c.clone()).unwrap(); }
+            let p = mem.write_to_directory(&side).unwrap(); std::fs::copy(&p, dir.join(p.file_name().unwrap())).unwrap();   // "another process" wrote it
+            for c in &g.cas { if let Some(ch) = c.chunks.first() { expected.push(ch.chunk_hash); } for ch in &c.chunks { *all_prefixes.entry(ch.chunk_hash[0]).or_insert(0) += 1; } }
+            let m2 = rt.block_on(ShardFileManager::new_in_cache_directory(&dir)).unwrap();
+            for h in &expected {
+                let a = rt.block_on(m2.chunk_hash_dedup_query(&[*h])).unwrap();
+                // (a chunk whose truncated hash occurs in another row as well may legitimately be missed: one index entry per prefix)
+                if a.is_none() && all_prefixes.get(&h[0]) == Some(&1) {
+                    ctx.fail("C11", "shard-of-another-process-not-seen", format!("a manager obtained for a cache directory after another writer added a shard there does not find that shard's chunk (round {round}, step {step}, {} shard files in the directory)", mdb_files(&dir).len()),
+                             format!("{{\"suite\":\"manager\",\"seed\":{},\"shared_round\":{round}}}", ctx.seed));
+                }
+            }
+            ctx.stat("shared_cache_dir_steps");
+        }
+        drop(m1);
+        let _ = std::fs::remove_dir_all(&dir); let _ = std::fs::remove_dir_all(&side);
+    }
     // ---- concurrent adders (C11): several tasks add xorb records while size-triggered flushes run; afterwards every record is in a shard
     if minsize <= 4000 {
         let mt = tokio::runtime::Builder::new_multi_thread().worker_threads(4).build().unwrap();
